@@ -31,7 +31,7 @@ enum Role { CLIENT = 0, SERVER = 1 };
 
 // what a Step emits: handshake message types use their wire value
 enum Msg : int {
-    M_HELLO_REQUEST = 0, M_CLIENT_HELLO = 1, M_SERVER_HELLO = 2, M_NEW_SESSION_TICKET = 4, M_CERTIFICATE = 11,
+    M_HELLO_REQUEST = 0, M_CLIENT_HELLO = 1, M_SERVER_HELLO = 2, M_HELLO_VERIFY_REQUEST = 3 /* DTLS */, M_NEW_SESSION_TICKET = 4, M_CERTIFICATE = 11,
     M_SERVER_KEY_EXCHANGE = 12, M_CERTIFICATE_REQUEST = 13, M_SERVER_HELLO_DONE = 14, M_CERTIFICATE_VERIFY = 15,
     M_CLIENT_KEY_EXCHANGE = 16, M_FINISHED = 20,
     M_CCS = 0x100,               // ChangeCipherSpec record (body 01, or Step::payload if given); afterwards the puppet's write state is protected (keys derived on demand, sequence number 0)
@@ -52,11 +52,15 @@ struct Step {
     int flip_bit = -1;           // flip bit (flip_bit mod 8*len) of the handshake body / record payload; -1 = none
     int prot = P_STATE;
     size_t frag = 0;             // handshake only: records carry at most this many bytes of handshake data (0 = as much as fits)
+    int frag_count = 0;          // DTLS handshake only: split the body into this many (nearly equal) in-order fragments instead of `frag` bytes each
     bool coalesce = false;       // handshake only: keep the record open; the next handshake message continues in the same record(s)
     bool resend = false;         // send the byte-identical previous instance of this message (a true duplicate) instead of building a new one
     int hs_type = 0;             // M_RAW_HANDSHAKE: handshake type; M_TYPED_RECORD: record content type
     Bytes payload;               // M_APPDATA / M_ALERT / M_RAW_* / M_TYPED_RECORD / optional NewSessionTicket ticket bytes
     uint16_t rec_version = 0;    // record-layer version (0 = negotiated version)
+    int body_len = -1;           // handshake only: truncate / zero-extend the honest body to this many bytes (length fields follow); -1 = honest length
+    int epoch_override = -1;     // DTLS: epoch written into the record header (and into MAC/AAD/nonce if protected); -1 = the current write epoch
+    int seq_skip = 0;            // DTLS handshake: added to the message_seq this message would get (+1 = gap, -1 = repeats the previous number)
     std::function<void(Bytes &)> mutate; // edits the complete handshake message (4-byte header + body) before it enters the transcript
     Step() {}
     explicit Step(int m) : msg(m) {}
@@ -71,6 +75,10 @@ struct Session {
 struct Config {
     int role = CLIENT;
     uint16_t version = 0x0303;   // 0x0303 TLS 1.2 (SHA-256 PRF), 0x0302 TLS 1.1 (MD5+SHA1 PRF; CBC-SHA suites only)
+    bool dtls = false;           // DTLS 1.2 (version 0x0303 rules, wire 0xfefd) / DTLS 1.0 (version 0x0302 rules, wire 0xfeff): 13-byte record header, 12-byte handshake
+                                 // header, HelloVerifyRequest, epochs.  One emit() = the records of one step; deliver every record as its own datagram.  No timers:
+                                 // drive in lock-step; duplicates (message_seq already seen) from the peer are ignored, fragments are reassembled in order
+    bool dtls_cookie = true;     // DTLS server: legal_script() starts with HelloVerifyRequest
     // 0x009C RSA_AES128_GCM_SHA256, 0xC02F ECDHE_RSA_AES128_GCM_SHA256, 0x003C RSA_AES128_CBC_SHA256, 0xC027 ECDHE_RSA_AES128_CBC_SHA256,
     // 0x002F RSA_AES128_CBC_SHA, 0xC013 ECDHE_RSA_AES128_CBC_SHA
     uint16_t suite = 0x009C;
